@@ -92,6 +92,7 @@ func TestC12Cli(t *testing.T) {
 			if rapid.Bool().Draw(t, "acr") {
 				a := genAcr(t, false)
 				a.Reroot = -1
+				a.Tree.Walk(func(x, p *ref.Node) { x.Com, x.BCom = nil, nil }) // the command reads lines: no comment with a line break
 				// the states file is tab/comma separated, one line per tip
 				for i, n := range a.Names {
 					a.Names[i] = strings.NewReplacer(" ", "_", ",", "_", "\t", "_", ";", "_").Replace(n)
